@@ -135,6 +135,9 @@ func (ex *Exec) send(st *State, fr *Frame, x *ssa.Send) {
 		if len(co.buf) < co.cap {
 			w := st.chanObjW(ch)
 			w.buf = append(w.buf, copyVal(v))
+			if ex.hbOn {
+				w.vcs = append(w.vcs, ex.hbSendVC(st))
+			}
 			fr.ip++
 			return
 		}
@@ -156,11 +159,16 @@ func (ex *Exec) recv(st *State, fr *Frame, x *ssa.UnOp, ch ChanV) {
 			w := st.chanObjW(ch)
 			v := w.buf[0]
 			w.buf = append([]Value(nil), w.buf[1:]...)
+			if ex.hbOn && len(w.vcs) > 0 {
+				ex.hbRecvVC(st, w.vcs[0])
+				w.vcs = append([]VC(nil), w.vcs[1:]...)
+			}
 			ex.set(fr, x, mk(v, true))
 			fr.ip++
 			return
 		}
 		if co.closed {
+			ex.hbAcquire(st, fmt.Sprintf("close:%d", ch.obj))
 			ex.set(fr, x, mk(zeroVal(et), false))
 			fr.ip++
 			return
@@ -179,6 +187,7 @@ func (ex *Exec) closeChan(st *State, fr *Frame, ch ChanV) {
 		return
 	}
 	st.chanObjW(ch).closed = true
+	ex.hbRelease(st, fmt.Sprintf("close:%d", ch.obj), false)
 }
 
 func (ex *Exec) doSelect(st *State, fr *Frame, x *ssa.Select) {
@@ -256,6 +265,9 @@ func (ex *Exec) doSelect(st *State, fr *Frame, x *ssa.Select) {
 				v := ex.get(s2, f2, s.Send)
 				w := s2.chanObjW(ch)
 				w.buf = append(w.buf, copyVal(v))
+				if ex.hbOn {
+					w.vcs = append(w.vcs, ex.hbSendVC(s2))
+				}
 				f2.regs[f2.info.index[x]] = mkRes(r.i, false, -1, nil)
 				f2.ip++
 				return
@@ -265,8 +277,13 @@ func (ex *Exec) doSelect(st *State, fr *Frame, x *ssa.Select) {
 				w := s2.chanObjW(ch)
 				v := w.buf[0]
 				w.buf = append([]Value(nil), w.buf[1:]...)
+				if ex.hbOn && len(w.vcs) > 0 {
+					ex.hbRecvVC(s2, w.vcs[0])
+					w.vcs = append([]VC(nil), w.vcs[1:]...)
+				}
 				f2.regs[f2.info.index[x]] = mkRes(r.i, true, r.ri, v)
 			} else {
+				ex.hbAcquire(s2, fmt.Sprintf("close:%d", ch.obj))
 				et := s.Chan.Type().Underlying().(*types.Chan).Elem()
 				f2.regs[f2.info.index[x]] = mkRes(r.i, false, r.ri, zeroVal(et))
 			}
